@@ -22,6 +22,8 @@ _state = {
     "events": [],
     "interceptor": None,
     "all_events": False,
+    "tag_fn": None,   # called in the thread that performs the event; its result is stored next to the event
+    "tagged": [],
 }
 _lock = threading.Lock()
 
@@ -74,6 +76,9 @@ def _hook(event, args):
     if rec[0] in ("open_r", "os.listdir", "os.scandir") and not _state["all_events"]:
         return
     _state["events"].append(rec)
+    tf = _state["tag_fn"]
+    if tf is not None:
+        _state["tagged"].append((tf(), rec))
 
 
 def install():
@@ -83,10 +88,12 @@ def install():
             _state["installed"] = True
 
 
-def arm(root, all_events=False):
+def arm(root, all_events=False, tag_fn=None):
     install()
     _state["root"] = root.rstrip(os.sep) + os.sep
     _state["events"] = []
+    _state["tag_fn"] = tag_fn
+    _state["tagged"] = []
     _state["all_events"] = all_events
     _state["armed"] = True
 
@@ -96,6 +103,11 @@ def disarm():
     ev = _state["events"]
     _state["events"] = []
     return ev
+
+
+def tagged():
+    """[(tag, event)] recorded since arm(tag_fn=...)."""
+    return list(_state["tagged"])
 
 
 def drain():
